@@ -30,7 +30,7 @@ def seqof_ops(rng, n):
     for _ in range(n):
         k = rng.choice(['append', 'append', 'extend', 'setitem', 'setcomp', 'sort', 'reverse', 'clear', 'reset', 'clone',
                         'len', 'iter', 'in', 'getitem', 'getneg', 'getcomp', 'count', 'index', 'pretty', 'eq', 'encode',
-                        'bad-get', 'bad-set', 'slice-get', 'slice-set', 'isValue'])
+                        'bad-get', 'bad-set', 'slice-get', 'slice-set', 'bad-slice-set', 'isValue'])
         ops.append((k, rng.randrange(-3, 9), rng.randrange(0, 6)))
     return ops
 
@@ -165,6 +165,22 @@ def run_seqof(ops, typed):
                 expect[sl] = items
                 obj[sl] = [mk(x) for x in items]
                 model = expect
+            elif k == 'bad-slice-set':
+                # an item that is no value of the element type, refused by whatever error its conversion raises (the
+                # library's, or TypeError / ValueError out of int()): the refusal leaves the container as it was --
+                # checked below against the unchanged model
+                n_ = len(model or [])
+                lo = a % (n_ + 2)
+                sl = (slice(lo, lo + b % 3), slice(lo, None), slice(None, None))[(a + b) % 3]
+                bad = (None, [2], 'x', object())[(a * 3 + b) % 4]
+                items = [[mk(a), bad, mk(b)], [bad], [mk(b), mk(a), bad]][(a + 2 * b) % 3]
+                try:
+                    obj[sl] = items
+                except Exception:
+                    pass
+                else:
+                    return rec('slice assignment of %r succeeds' % (bad,), history=hist, container='SequenceOf',
+                               kind='ill-formed-accepted')
             elif k == 'bad-get':
                 n = len(model or [])
                 try:
